@@ -9,6 +9,7 @@ import (
 	"strings"
 
 	"verif/checker/internal/dtab"
+	"verif/checker/internal/load"
 	"verif/checker/internal/report"
 	"verif/checker/internal/shape"
 	"verif/checker/internal/sym"
@@ -750,9 +751,12 @@ func permutations(xs []string) [][]string {
 func (c *Ctx) checkStepSpecs(specs []stepSpec) {
 	run := c.Run
 	for _, sp := range specs {
-		parts := strings.SplitN(sp.Site, ".(*", 2)
-		tn := strings.TrimSuffix(parts[1], ").Compute")
-		fi := c.fn(parts[0], tn, "Compute")
+		var fi *load.FuncInfo
+		if parts := strings.SplitN(sp.Site, ".(*", 2); len(parts) == 2 {
+			fi = c.fn(parts[0], strings.TrimSuffix(parts[1], ").Compute"), "Compute")
+		} else if i := strings.LastIndex(sp.Site, "."); i > 0 {
+			fi = c.fn(sp.Site[:i], "", sp.Site[i+1:]) // a plain function: "helper.Since"
+		}
 		if fi == nil {
 			continue
 		}
